@@ -228,9 +228,15 @@ func runProg(p prog, protos []vt.NamedProto) (sameSessionPairs int) {
 	}
 	done := make(chan struct{})
 	go func() { wg.Wait(); close(done) }()
-	vt.WaitClosed(done)
-	for _, n := range touched {
-		if n >= 2 {
+	// the oracle here is the race detector, not a liveness bound: a burst of network
+	// operations may take long on a loaded machine
+	select {
+	case <-done:
+	case <-time.After(10 * time.Minute):
+		panic("C14 harness: the workers of a program did not finish within 10 minutes\n" + vt.GoroutineDump())
+	}
+	for i := range touched {
+		if atomic.LoadInt32(&touched[i]) >= 2 {
 			sameSessionPairs++
 		}
 	}
